@@ -11,7 +11,7 @@ COQ_DIR = "C04"
 EXTRA_COQ_DIRS = ["LLP"]
 RUN_MOD = "C04.Run"
 MODEL_TARGETS = ["C04/Run.vo"]
-PROOF_TARGETS = ["C04/LemmasText.vo", "C04/LemmasLex.vo", "C04/LemmasCover.vo", "C04/LemmasTree.vo", "C04/LemmasConc.vo", "C04/LemmasNode.vo", "C04/LemmasOps.vo", "C04/LemmasSess.vo"]
+PROOF_TARGETS = ["C04/LemmasText.vo", "C04/LemmasLex.vo", "C04/LemmasCover.vo", "C04/LemmasTree.vo", "C04/LemmasConc.vo", "C04/LemmasNode.vo", "C04/LemmasOps.vo", "C04/LemmasSess.vo", "C04/LemmasBig.vo"]
 PROPS = ["C04/Props.v"]
 ALLOWED_AXIOMS = []
 IMPL_TIMEOUT = 10.0
@@ -49,6 +49,18 @@ RULE = ("texts rendered from the harness lexicon (words, numbers, quoted strings
         "another text in between, get_orig_text(the object as it is now) of every element of an EARLIER result; the expectation is "
         "always the model's result for the contents the object has at the time of the call; next to every call the same call is made "
         "by a new parser object on a new plain copy of the contents.  "
+        "ROUND 4 (about 690 quick / 1700 thorough cases, appended): invisible and format characters (U+FEFF byte order mark, "
+        "U+200B, U+00A0, U+2060, U+00AD, a combining mark behind a letter, a ligature) as first character of the text, twice, as "
+        "first / last / only character of a later line, behind leading white space, in the middle - under configurations where the "
+        "character is white space, a foreign character (LexicalError naming its line), a token of the grammar (configuration H: a "
+        "pattern [U+0080-U+FFFD]+ behind SPACE) or a skipped token (I: the same pattern in front of SPACE, in skip_tokens), as str and "
+        "as list of lines, also in front of random texts and in sessions on a str object; for every str the list of its rstrip()ped "
+        "lines is tokenized too and must give the same tokens and positions.  Sizes beyond 256: texts of 257-514 lines whose tokens sit "
+        "on lines 257.. only / every few dozen lines / on the lines 256-260, span tokens on one line beyond 257, from line 250 to 260, "
+        "over two lines beyond 257, unclosed from line 300, a foreign character beyond line 257, columns beyond 256 (a run of 255-300 "
+        "blanks in front, a token of 258-303 characters), more than 256 tokens (one per line, '( )' pairs with an empty node inside "
+        "one per line, all on one line; grammar tseq whose raw tree is flat), sessions on a buffer of 262 lines edited beyond line 257; "
+        "random texts moved down / right by 256-290.  "
         "Non-trivial = distinct case with at least two lines or a span token or a foreign character, and at least three tokens; a "
         "session: at least two calls that returned three or more elements for different contents.")
 TRUSTED_BASE = [
@@ -217,6 +229,7 @@ KIND_LEXEMES = {
     "num": ["0", "12", "7", "345"],
     "str": ['""', '"x y"', '"a+b"', '"//"', '"/*"', '"#"'],
     "plus": ["+"], "semi": [";"], "lp": ["("], "rp": [")"], "div": ["/"],
+    "uni": ["\ufeff", "\u00e9", "\u200b\u4e2d", "\u2060"],
 }
 
 CONFIGS = {
@@ -265,6 +278,27 @@ CONFIGS = {
           "names": {"word": "WORD", "num": "NUM", "str": "DQ", "plus": "PLUS", "semi": "SEMI", "lp": "LP", "rp": "RP",
                     "div": "DIV"}},
 }
+
+# configurations of the round-4 cases (kept apart: sorted(CONFIGS) drives the random stream of the older cases).
+# A pattern that matches every character from U+0080 to U+FFFD: the invisible / format characters (U+FEFF, U+200B,
+# U+2060, U+00AD, combining marks, ligatures) are then TOKENS - terminals of the grammar (H: after SPACE, so the white
+# space among them stays white space) or skipped tokens (I: before SPACE; the way a user makes the tokenizer ignore a
+# byte order mark - its column is still counted)
+XCONFIGS = {
+    "H": {"lex": _base_lex()[:1] + [["UNI", "range", "\x80\ufffd"]] + _base_lex()[1:], "spans": [["COMMENT_ML", "*/"]],
+          "syn": [], "kw": [], "skip": None, "open": "/*", "close": "*/", "eol": "//",
+          "names": {"word": "WORD", "num": "NUM", "str": "DQ", "plus": "PLUS", "semi": "SEMI", "lp": "LP", "rp": "RP",
+                    "div": "DIV", "mlc": "COMMENT_ML", "uni": "UNI"}},
+    "I": {"lex": [["UNI", "range", "\x80\ufffd"]] + _base_lex(), "spans": [["COMMENT_ML", "*/"]],
+          "syn": [["PLUS", "+"]], "kw": [["WORD", "if", "IF"]], "skip": ["SPACE", "COMMENT", "UNI"],
+          "open": "/*", "close": "*/", "eol": "//",
+          "names": {"word": "WORD", "num": "NUM", "str": "DQ", "plus": "+", "semi": "SEMI", "lp": "LP", "rp": "RP",
+                    "div": "DIV", "mlc": "COMMENT_ML", "kw_if": "IF"}},
+}
+
+
+def config(cid):
+    return CONFIGS[cid] if cid in CONFIGS else XCONFIGS[cid]
 
 
 def cfg_terminals(cfg):
@@ -482,7 +516,7 @@ def sentence_kinds(rng, cfg, g):
 
 
 def mk_case(cid, gid, text, as_list, smart=True, keepends=False, note="", keep=None, prev=None):
-    cfg = CONFIGS[cid]
+    cfg = config(cid)
     g = grammars_for(cfg)[gid]
     if as_list:
         lines = text.split("\n")
@@ -608,6 +642,8 @@ def gen_cases(rng, tier, n=None, n_sess=None):
     # sessions: one parser object, one text OBJECT, calls with in-place edits in between (drawn after the
     # single-text cases, which therefore stay what they were)
     cases += gen_sessions(rng, n_sess if n_sess is not None else (2600 if tier == "thorough" else 420))
+    # round 4: invisible / format characters at the start of the text and of lines, line / column / token numbers > 256
+    cases += gen_exotic(rng, 1200 if tier == "thorough" else 160)
     return cases
 
 
@@ -705,7 +741,7 @@ def gen_edit(rng, cur, pool):
 
 
 def gen_session(rng, cid):
-    cfg = CONFIGS[cid]
+    cfg = config(cid)
     gs = grammars_for(cfg)
     gid = "flat" if rng.random() < 0.5 else rng.choice(sorted(gs))
     flavor = rng.choice(FLAVOR_POOL)
@@ -823,6 +859,169 @@ def gen_sessions(rng, n):
         out.append(gen_session(rng, rng.choice(cids)))
     return out[:n] if n < len(out) else out
 
+
+
+# ------------------------------------------------------------------ round 4: sizes and characters off the beaten track
+# invisible / format characters: byte order mark (what a file saved "with BOM" starts with after decoding), zero width
+# space, NBSP (white space for str.isspace and \s), word joiner, soft hyphen, a combining mark (NFC would merge it into
+# the letter in front of it), a ligature (NFKC would make two letters of it)
+INVISIBLE = ["\ufeff", "\u200b", "\u00a0", "\u2060", "\u00ad", "\u0301", "\ufb01"]
+XCIDS = ["A", "B", "C", "E", "G", "H", "I"]
+
+
+def _invisible_texts(c):
+    return [c + "ab 12\ncd",                    # first character of the text
+            c + c + "ab\n" + c + "cd 12",         # twice; first character of a later line
+            "ba" + c + "\n" + c,                  # last character of a line (behind a letter a combining mark would
+                                                  # merge with under NFC); alone on the last line
+            " " + c + " ab 12",                   # behind leading white space
+            c + "\n\nab",                         # alone on line 1
+            "ab " + c + c + " 12" + c]            # in the middle and at the end
+
+
+def _long_texts(rng, cfg, cid, heavy):
+    """texts whose line numbers, column numbers and token counts exceed 256 (nothing in CPython makes two equal ints
+    above 256 the same object; a table / cache sized 256 ends there) -> [(gid, text, note)].  Cheap ones: many empty
+    lines, one long run of blanks; dense ones (heavy: a few configurations only) for the grammar whose raw tree is
+    flat (tseq) - with the nested nodes of the other grammars the observation grows with the square of the text."""
+    o, c, e = cfg["open"], cfg["close"], cfg["eol"]
+    sp = "" if cfg["skip"] == [] else " "
+    gs = grammars_for(cfg)
+    out = []
+    k = rng.choice([256, 257, 258, 300, 513])
+    # tokens on line k+1.. only (single-line leaves and nodes, a node over two lines)
+    out.append(("flat", "\n" * k + "ab 12\ncd" + sp + "x\n", f"long:lines>{k}"))
+    # sparse: token lines around line 257 and far apart, blank and white-space-only lines between
+    lines = []
+    for i in range(1, 335):
+        lines.append("x" if i in (1, 129, 256, 257, 258, 259, 300) else f"({sp}{i}{sp})" if i in (2, 260, 334)
+                     else " " if i % 50 == 0 else "")
+    if "tseq" in gs:
+        out.append(("tseq", "\n".join(lines), "long:sparse"))
+    else:
+        out.append(("flat", "\n".join(l for l in lines if not l.startswith("(")), "long:sparse"))
+    if o:
+        # span tokens: on one line beyond 257, from line 250 over line 257, two lines beyond 257
+        lines = [""] * 270
+        lines[249] = f"a{sp}{o} from 250"
+        lines[256] = "over"
+        lines[259] = f" to 260 {c}{sp}b"
+        lines[262] = f"{o} one line {c}{sp}12"
+        lines[264] = f"q{sp}{o}"
+        lines[265] = f"{c}"
+        out.append(("flat", "\n".join(lines), "long:spans"))
+        out.append(("flat", "\n" * 299 + f"a{sp}{o} never closed\n\nb", "long:unclosed"))
+    if e:
+        out.append(("flat", "\n" * 280 + f"a{sp}{e} comment\nb", "long:comment"))
+    out.append(("flat", "\n" * (k + 3) + "ab" + sp + "@\n12", "long:foreign"))
+    # columns beyond 256 (start and end), a token longer than 256, also on a line beyond 257
+    w = rng.choice([255, 256, 257, 300])
+    if sp:
+        out.append(("flat", " " * w + "ab" + " " * 3 + "12", "long:columns"))
+        out.append(("flat", "\n" * 260 + " " * (w + 7) + "cd 7", "long:columns-far"))
+    out.append(("flat", "a" * (w + 3) + ";" + "1" * w, "long:token"))
+    if "tseq" in gs and heavy:
+        n = rng.choice([258, 262])
+        # more than 256 tokens, one per line: leaf #k sits on line k; the empty TAILOPT follows token n
+        out.append(("tseq", "a\n" * n, "long:dense-lines"))
+        out.append(("tseq", (f"({sp})\n" * 130) + "+", "long:dense-empty-nodes"))
+        out.append(("tseq", sp.join(["ab"] * 200 + ["(", "7", ")"] * 20) if sp else "(7)" * 90, "long:dense-one-line"))
+    if "tail" in gs and sp:
+        out.append(("tail", "\n" * k + "ab cd   12", "long:tail"))
+        out.append(("tail", " " * w + "ab" + " " * w + "12", "long:tail-columns"))
+    return out
+
+
+def gen_exotic(rng, n_rand):
+    """appended after the older cases (their random stream stays what it was)"""
+    out = []
+    # ---- invisible characters, under configurations where the character is white space / a foreign character /
+    # a token of the grammar / a skipped token
+    for cid in XCIDS:
+        for ch in (INVISIBLE if cid in "AHI" else INVISIBLE[:3]):
+            for i, t in enumerate(_invisible_texts(ch)):
+                for as_list in (False, True):
+                    out.append(mk_case(cid, "flat", t, as_list, smart=(i % 2 == 0), note="invisible"))
+    # ---- long texts (the big ones spread among the small ones: the model evaluates the cases in shards)
+    big = []
+    for cid in sorted(CONFIGS) + sorted(XCONFIGS):
+        cfg = config(cid)
+        for j, (gid, t, note) in enumerate(_long_texts(rng, cfg, cid, cid in "AI")):
+            dense = note.startswith("long:dense")
+            both = (not dense and cid in "ACH") or note == "long:dense-lines"
+            for as_list in ((False, True) if both else (rng.random() < 0.5,)):
+                prev = None
+                if as_list and j % 3 == 0:
+                    prev = {"text": prev_texts(cfg)[j % 5], "mode": "interleave", "k": 1}
+                if note == "long:token" and cid not in "AEH":
+                    continue
+                (big if dense or note == "long:token" else out).append(mk_case(cid, gid, t, as_list, smart=(j % 2 == 0), note=note, prev=prev))
+    step = max(1, len(out) // (len(big) + 1))
+    for i, c in enumerate(big):
+        out.insert(min(len(out), 7 + i * (step + 1)), c)
+    # ---- random texts with such characters at the start of the text / of a line / anywhere, random long offsets
+    cids = sorted(CONFIGS) + sorted(XCONFIGS) * 3
+    for _ in range(n_rand):
+        cid = rng.choice(cids)
+        cfg = config(cid)
+        gs = grammars_for(cfg)
+        gid = rng.choice(sorted(gs))
+        text, note = _rand_text(rng, cfg, gs, gid)
+        r = rng.random()
+        ch = rng.choice(INVISIBLE) * rng.choice([1, 1, 2])
+        if r < 0.45:
+            text = ch + text
+            note += "+invisible-first"
+        elif r < 0.6:
+            k = text.find("\n") + 1
+            text = text[:k] + ch + text[k:]
+            note += "+invisible-line"
+        elif r < 0.75:
+            k = rng.randrange(len(text) + 1)
+            text = text[:k] + ch + text[k:]
+            note += "+invisible"
+        else:
+            # the text moved down / to the right by more than 256
+            text = "\n" * rng.choice([256, 257, 270]) + text
+            if cfg["skip"] != [] and rng.random() < 0.5:
+                text = text.replace("\n", "\n" + " " * rng.choice([256, 257, 290]), 1) if rng.random() < 0.5 else " " * 257 + text
+            note += "+far"
+        as_list = rng.random() < 0.45
+        prev = None
+        if rng.random() < 0.25:
+            prev = {"text": rng.choice(prev_texts(cfg)), "mode": rng.choice(["before", "interleave"]), "k": rng.randint(0, 3)}
+        out.append(mk_case(cid, gid, text, as_list, smart=rng.random() < 0.6, note=note, prev=prev))
+    # ---- sessions on a long buffer of lines / a str that starts with an invisible character
+    for cid in ("A", "E", "H"):
+        for flavor in ("list", "deque", "str"):
+            fk = FLAVOR_KIND[flavor]
+            cur = [""] * 259 + ["ab 12", "cd", "x 3 y"]
+            steps = [{"op": "call", "what": "parse", "src": "src"}]
+            if fk == "lines":
+                for e in ({"how": "set", "i": 260, "line": "  foo 345 ; q", "coq": ["set", 260, "  foo 345 ; q"]},
+                          {"how": "del", "i": 3, "coq": ["del", 3]},
+                          {"how": "ins", "i": 258, "line": "zz", "coq": ["ins", 258, "zz"]}):
+                    e = dict(e, op="edit")
+                    after = list(cur)
+                    if e["how"] == "set":
+                        after[e["i"]] = e["line"]
+                    elif e["how"] == "ins":
+                        after.insert(e["i"], e["line"])
+                    else:
+                        del after[e["i"]]
+                    e["after"] = cur = after
+                    steps += [e, {"op": "orig", "k": 0}, {"op": "call", "what": "tok", "src": "src"}]
+                init = [""] * 259 + ["ab 12", "cd", "x 3 y"]
+            else:
+                init = "\ufeffab 12\n\u200bcd" + "\n" * 257 + "x 3 y"
+                for new in ("ab 12\n\ufeffcd" + "\n" * 257 + "x 3 y", "\ufeff\ufeffq 1\n" + "\n" * 257 + "zz"):
+                    steps += [{"op": "new", "contents": new, "drop": True}, {"op": "orig", "k": 0},
+                              {"op": "call", "what": "parse", "src": "src"}]
+            c = mk_case(cid, "flat", "", False, note="session-long")
+            c["text"] = init
+            c["sess"] = {"flavor": flavor, "init": init, "steps": steps}
+            out.append(c)
+    return out
 
 
 def search_cases(rng, tier):
@@ -1297,6 +1496,9 @@ def impl_run(case):
             if type(e).__name__ == "Hang":
                 raise
             out["ops"] = ["err", SX.exc_name(e), repr(e)[:200]]
+    if isinstance(text, str) and (out["lex"][0] == "ok" or out["lex"][1] == "LexicalError"):
+        # a str is its lines: the list of the rstrip()ped lines must give the same tokens at the same positions
+        out["as_lines"] = _call_tok(llparser, p, [l.rstrip() for l in text.split("\n")], "src", lambda: text)[0]
     return out
 
 
@@ -1673,6 +1875,7 @@ def _oracle_single(case, obs, ops=True):
     if out or ref[0] == "err" or lex[0] != "ok":
         if lex[0] == "err" and lex[1] != "LexicalError":
             out.append(("tokenize-raises", f"tokenize raised {lex[1]}"))
+        out += _str_vs_lines(obs)
         return out[:3]
     toks = lex[1]
     rtoks = ref[1]
@@ -1738,6 +1941,7 @@ def _oracle_single(case, obs, ops=True):
         if bad:
             out.append(("cover", f"character {bad[0] + 1} of line {li} {ol!r} belongs to {covered.get(base + bad[0], 0)} tokens"))
             break
+    out += _str_vs_lines(obs)
     # ---- tree
     pr = obs["parse"]
     skip = set(obs["skip"])
@@ -1759,6 +1963,21 @@ def _oracle_single(case, obs, ops=True):
             seen.add(sig)
             res.append((sig, msg + f"   [cfg {case['cfg']}, grammar {case['gid']}, text {text!r}]"))
     return res[:5]
+
+
+def _str_vs_lines(obs):
+    """text given as str: tokenize(text) and tokenize([line.rstrip() for line in text.split('\\n')]) agree on token
+    names, values, spans (and on the LexicalError)"""
+    al = obs.get("as_lines")
+    if al is None:
+        return []
+    lex = obs["lex"]
+    a = [t[:3] for t in lex[1]] if lex[0] == "ok" else lex
+    b = [t[:3] for t in al[1]] if al[0] == "ok" else al
+    if a != b:
+        return [("str-vs-lines", f"the text as str and as the list of its rstrip()ped lines are tokenized differently: "
+                 f"{_first_diff(b, a)} (list vs str)")]
+    return []
 
 
 def _first_closer(body, closer):
@@ -2034,7 +2253,10 @@ LEVEL_TEXT = ("Full for the statement's clauses, as theorems about the model for
               "call made at ANY moment of a history of calls and in-place edits gives tokens / tree elements that delimit "
               "characters of the contents of THAT moment), orig_text_is_local, stale_element_above_edit, "
               "stale_element_line_replaced_elsewhere (get_orig_text slices the text it is given and depends on the element's lines "
-              "only).  source_shape ties the model to the presence of the line-start statement in the source; "
+              "only).  Round 4: orig_text_one_line (two valid positions on one line, whatever its number and whatever the columns: "
+              "get_orig_text is that line's slice, of c1 - c0 characters) and str_is_its_stripped_lines (a str is tokenized as the list "
+              "of its rstrip()ped lines; every line the tokenizer sees, the first included, is a prefix of the caller's line), "
+              "Examples witness_line_300, witness_column_300, witness_leading_bom.  source_shape ties the model to the presence of the line-start statement in the source; "
               "harness_matcher_ok proves the hypotheses for the concrete matcher that is compared with re on every run.  "
               "Only tested (correspondence + offset-based reference tokenizer), not theorems: that the reported closer is the FIRST "
               "place where the span body pattern matches; the converse direction of lex_error_line beyond what tokens_cover + "
@@ -2047,7 +2269,7 @@ LEVEL_TEXT = ("Full for the statement's clauses, as theorems about the model for
               "remembers nothing per text object / per src_name is exactly what the session correspondence and the oracle "
               "signatures history-dependent, src-name, orig-text-given test); get_orig_text under another "
               "representation of the text (compared with the model's orig_lines of that representation); fidelity of the model "
-              "(1800 cases + 420 sessions quick / 14000 + 2600 thorough, seven configurations, ten grammars).")
+              "(1800 cases + 420 sessions + about 690 round-4 cases quick / 14000 + 2600 + about 1700 thorough, nine configurations, ten grammars).")
 LEVEL_NOTE = ("Trusted: Coq kernel + vm_compute; fidelity of the hand model of _Tokenizer.tokenize / get_orig_text / the skip filter and of "
               "LLP/Parse.v (checked by correspondence on token lists, LexicalError position and text, tree spans and get_orig_text of every "
               "token and node, not proved); re, str.isspace/split/rstrip of CPython; the ast extractor and harness.  Outside the "
